@@ -103,6 +103,26 @@ func gen(r *Rng, tier string, emit Emit) {
 		}
 		emit("C", "guidparse", H(txt))
 	}
+	// files with sections stored in the FFSv3 large form although small: every save rewrites them
+	// in the small form (also in volumes no operation names), so p_c03's byte-level expectations do
+	// not apply; model correspondence and the validity oracle of C02 instead
+	nlf := 80
+	if tier == "thorough" {
+		nlf = 1500
+	}
+	editops.LargeSectioned = true
+	for it := 0; it < nlf; it++ {
+		rr := r.Fork(uint64(8000000 + it))
+		c := editops.GenCase(rr, rr.Pick(0, 0, 1), rr.Range(1, 3))
+		if len(c.Img) > modelMax {
+			continue
+		}
+		emitTables(emit, c)
+		args := append([]string{H(c.Img)}, editops.Tokens(c.Ops)...)
+		emit("C", "edit", args...)
+		emit("P", "p_c02", args...)
+	}
+	editops.LargeSectioned = false
 	// files of 16 MiB and more: built in the worker
 	nbig := 3
 	if tier == "thorough" {
